@@ -865,10 +865,23 @@ def mk_fn(name, args, kwargs=()):
         return fpow(args[0], Fraction(1, 2))
     if name == "square" and len(args) == 1 and isinstance(args[0], Form):
         return fpow(args[0], Fraction(2))
+    if name == "expm1" and len(args) == 1 and not kwargs and isinstance(args[0], Form):
+        return mk_fn("exp", [args[0]]) - 1           # exp(u) - 1 (the accurate spelling of the same value)
+    if name == "log1p" and len(args) == 1 and not kwargs and isinstance(args[0], Form):
+        return mk_fn("log", [1 + args[0]])           # log(1 + v)
     if name in ("exp", "exp10") and len(args) == 1 and isinstance(args[0], Form):
         a = args[0]
         if a.is_zero():
             return Form.num(1)
+        if name == "exp" and a.terms:
+            # exp(k * log(w)) is w**k: every term of the exponent carries the same log atom to the first power
+            logs = {at for m in a.terms for at, e in m if at[0] == "fn" and at[1] == "log" and e == 1 and len(at[2]) == 1 and not at[3]}
+            if len(logs) == 1:
+                la = next(iter(logs))
+                if all(sum(1 for at, e in m if at == la) == 1 for m in a.terms):
+                    k = Form({tuple((at, e) for at, e in m if at != la): c for m, c in a.terms.items()})
+                    if isinstance(la[2][0], Form) and not any(at == la for at in k.atoms()):
+                        return fpow(la[2][0], k)
         if name == "exp10":
             k = a.terms.get(())
             if k is not None and k[1] == 0 and len(a.terms) > 1:
@@ -934,6 +947,30 @@ def form_str(f: Form) -> str:
 
 
 # ----------------------------------------------------------------------------- queries
+def const_float(f):
+    """numeric value of a constant form: rational coefficients times powers of log(c) / sqrt-like number atoms; None otherwise"""
+    import math
+    if not isinstance(f, Form):
+        return None
+    tot = 0.0
+    for m, c in f.terms.items():
+        if c[1] != 0:
+            return None
+        v = float(c[0])
+        for a, e in m:
+            if a[0] == "num":
+                v *= float(a[1]) ** float(e)
+            elif a[0] == "fn" and a[1] in ("log", "log10", "exp") and len(a[2]) == 1 and isinstance(a[2][0], Form) and a[2][0].rational() is not None:
+                x = float(a[2][0].rational())
+                v *= {"log": math.log, "log10": math.log10, "exp": math.exp}[a[1]](x) ** float(e)
+            elif a[0] == "c" and a[1] in ("math.e", "numpy.e"):
+                v *= math.e ** float(e)
+            else:
+                return None
+        tot += v
+    return tot
+
+
 def linear_in(form: Form, atoms: list):
     """decompose form = sum_i coef_i * atom_i + rest, where coef_i and rest do not contain any
     of `atoms` (at top level of each monomial).  Returns (coefs: list[Form], rest: Form) or None
